@@ -121,15 +121,20 @@ fn run_plain(clauses: &[ClauseSpec], history: &[Call]) -> Observed {
 /// `VerifyHow::Verify`: the original is told not to verify in drop right after construction (the
 /// clones made afterwards inherit that) and is judged by an explicit verify() at the end.
 fn run_how(clauses: &[ClauseSpec], history: &[Call], how: VerifyHow) -> Observed {
-    run_mock(Unimock::new(build_clause(clauses)), history, how)
+    run_mock(Unimock::new(build_clause(clauses)), history, how, false)
+}
+
+/// Like `run_plain`, but the clones end on another thread (which is not unwinding).
+fn run_clones_end_elsewhere(clauses: &[ClauseSpec], history: &[Call]) -> Observed {
+    run_mock(Unimock::new(build_clause(clauses)), history, VerifyHow::Drop, true)
 }
 
 /// The same clauses in a partial mock (calls nothing answers go to the real functions).
 fn run_partial(clauses: &[ClauseSpec], history: &[Call]) -> Observed {
-    run_mock(Unimock::new_partial(build_clause(clauses)), history, VerifyHow::Drop)
+    run_mock(Unimock::new_partial(build_clause(clauses)), history, VerifyHow::Drop, false)
 }
 
-fn run_mock(original: Unimock, history: &[Call], how: VerifyHow) -> Observed {
+fn run_mock(original: Unimock, history: &[Call], how: VerifyHow, clones_end_elsewhere: bool) -> Observed {
     let original = if how == VerifyHow::Verify { original.no_verify_in_drop() } else { original };
     let n_clones = history.iter().map(|c| c.via & 0x7f).max().unwrap_or(0) as usize;
     let clones: Vec<Unimock> = (0..n_clones).map(|_| original.clone()).collect();
@@ -143,7 +148,14 @@ fn run_mock(original: Unimock, history: &[Call], how: VerifyHow) -> Observed {
             obs.push(observe_call(inst, c.m, c.x).obs);
         }
     }
-    drop(clones);
+    if clones_end_elsewhere {
+        // where a clone ends is no part of the history: a panic there would be
+        if let Err(p) = std::thread::spawn(move || drop(clones)).join() {
+            obs.push(Obs::Panic(format!("dropping the clones on another thread panicked: {}", payload_to_string(p))));
+        }
+    } else {
+        drop(clones);
+    }
     finish_how(original, obs, how)
 }
 
@@ -396,6 +408,23 @@ fn main() {
             st.add("transitions", h.len() as u64);
             st.add("traces_validated_against_impl", 1);
             st.add("b_routings", 1);
+            // the routed run once more with the clones ending on another thread
+            if h.len() <= 3 {
+                let var_e = run_clones_end_elsewhere(clauses, &routed);
+                st.add("traces_validated_against_impl", 1);
+                st.add("b_routings_clones_end_elsewhere", 1);
+                if base != var_e {
+                    ctx.violation(
+                        "b:routing-clones-end-elsewhere",
+                        &format!(
+                            "routing {} as {} with the clones dropped on another thread: baseline {base:?}, routed {var_e:?}",
+                            history_to_json(h).to_string(),
+                            history_to_json(&routed).to_string()
+                        ),
+                        J::obj().set("relation", "b-clones-end-elsewhere"),
+                    );
+                }
+            }
             // the same pair of runs with verification in drop switched off and an explicit verify()
             if h.len() <= 3 {
                 let base_v = run_how(clauses, h, VerifyHow::Verify);
